@@ -17,7 +17,7 @@ def observe(case):
             rej.add(m.group(1) or m.group(2))
     return {"rejected_traits": sorted(rej), "panic": res.get("panic"), "parse_ok": res.get("parse_ok"), "errors": errs, "rejected": bool(errs) or "panic" in res,
             "where": {common.norm(i["trait"]): sorted(common.norm(w) for w in i["where"]) for i in impls},
-            "item0": res["items"][0]["text"] if res.get("items") else "", "out": res.get("out", "")}
+            "item0": res["items"][0].get("text", "") if res.get("items") else "", "out": res.get("out", "")}
 
 
 def markers_of(case, obs):
